@@ -171,10 +171,16 @@ def r3(R3, cfg, F):
             ok = ins[0].bb not in b.reachable([0], removed_edges=[(sw, some)])
             src = b.downcast_source(ins[0].args[2])
             ok = ok and bool(src) and src[0] == ru[0].dest['l'] and src[1] == 'Some'
+            # ... and on EVERY path after a successful reload: the dependency set is re-learned at every reload
+            # (a skipped update keeps edges to entries the asset no longer reads -> spurious reloads later)
+            if ok and (b.reachable([some], removed_blocks=[ins[0].bb]) & set(b.return_blocks())):
+                ok = False
+                relearn_gap = True
         # no other mutation of the graph in reload
         muts = [c for c in b.calls() if c.callee and c.callee.recv_kind() == '&mut self' and re.search(r'Hash(Map|Set)', c.callee.best) and c.callee.name not in ('get_mut',)]
         ok = ok and not [m for m in muts if m.callee.name in ('insert', 'remove', 'clear', 'entry', 'retain', 'drain')]
-    R3.check(ok, cfg, b.path, 'graph-updated-only-on-Some(deps)', 'DepsGraph::reload must touch the graph only with the dependencies of a successful reload', b.loc())
+    R3.check(ok, cfg, b.path, 'graph-updated-exactly-on-Some(deps)',
+             'DepsGraph::reload must register the dependencies of a successful reload on every path (dependency sets are re-learned at every reload), and touch the graph only then', b.loc())
     rb = F.body("anycache::AnyCache::<'a>::reload_untyped")
     if rb:
         nones = [bb for bb, j, s in rb.assigns() if s['place']['l'] == 0 and s['rv']['k'] == 'aggregate' and s['rv'].get('variant_name') == 'None']
